@@ -290,3 +290,42 @@ Record unccase := {
 }.
 Definition check_uncontrolled (c : unccase) : bool :=
   list_eqb (option_eqb Qclose) (uncontrolled (u_infra c) (u_sessions c)) (ou_sched c).
+
+(* ------------------------------------------------------------------------------------------
+   C08 correspondence: in addition to check_sorted, evaluate the maximality statement on the
+   IMPLEMENTATION's recorded pilots with an independent computation: walking the queue with the recorded
+   pilots of the sessions already served and the lower bounds of the waiting ones,
+   - finite-rate station: the recorded pilot is the last (largest) level of [lb, ub] that passes the check, else 0;
+   - continuous station: the recorded pilot passes the check and either reaches ub or pilot + eps fails it
+     (with C08_feasible_interval this is optimality within eps). *)
+Definition c08_slack : Q := 1 # 1000000.
+
+Definition c08_step (feas : list Q -> bool) (inf : infra) (period : Q) (impl : list Q)
+           (st : list Q * bool) (s : session) : list Q * bool :=
+  let '(vec, ok) := st in
+  let i := s_station s in
+  let r := nth i impl 0 in
+  let lb := g_lb s in
+  let ub := g_ub inf period s in
+  let good :=
+    if nth i (i_cont inf) true
+    then feas (upd i r vec)
+         && (Qclose ub r || Qleb ub r || negb (feas (upd i (r + g_eps + c08_slack) vec)))
+    else Qclose (last (filter (fun a => feas (upd i a vec)) (g_allowable inf period s)) 0) r in
+  (upd i r vec, ok && good).
+
+Definition c08_maximal (c : sortcase) : bool :=
+  match o_err c with
+  | Some _ => true
+  | None =>
+      if c_rr (k_cfg c) then true
+      else
+        let inf := k_infra c in
+        let cfg := k_cfg c in
+        let o := schedule_exec inf cfg (k_sessions c) in
+        let feas := feas_big (big_rows (prep_rows inf)) in
+        let q := so_order o in
+        snd (fold_left (c08_step feas inf (c_period cfg) (o_sched c)) q (init_sched inf g_init_lb q, true))
+  end.
+
+Definition check_c08 (c : sortcase) : bool := check_sorted c && c08_maximal c.
